@@ -32,9 +32,9 @@ OUTSIDE = ["other same-instant orders than CPython's heapq order of the insertio
 STUBS = ["virtual-time event loop (symx/vloop.py) with a symbolic clock", "cond_tick returns a symbolic bool"]
 ASSUMPTIONS = ["at an exact tie between an external event and an expiry either order is accepted (the oracle follows the "
                "observed one) - exactly-once and no-stale-delivery are still enforced"]
-EXPECT_LABELS = {'all': ['fsm-log', 'fsm-state', 'one-timer', 'no-timer-after-stop', 'no-duration-error',
-                         'timer-log', 'timer-state', 'iexp-log', 'iexp-output', 'rejected-no-timer']}
-EXPECT_NOTES = {'all': ['tie-event-first', 'tie-event-expiry', 'event-before-expiry', 'event-after-expiry', 'zero-duration', 'inf-duration',
+EXPECT_LABELS = {'all': ['fsm-log', 'fsm-state', 'get-state-timer', 'one-timer', 'no-timer-after-stop', 'no-duration-error',
+                         'timer-log', 'timer-state', 'iexp-log', 'iexp-output', 'iexp-refused', 'rejected-no-timer', 'selfloop-log']}
+EXPECT_NOTES = {'all': ['put-refused', 'chained-event-with-duration', 'rejected-by-the-table', 'rejected-by-cond', 'initial-timed-state', 'tie-event-first', 'tie-event-expiry', 'event-before-expiry', 'event-after-expiry', 'zero-duration', 'inf-duration',
                         'timed-event-rejected', 'stop-before-expiry']}
 FLOORS = {'quick': {'paths': 1000, 'checks': 5000}, 'thorough': {'paths': 10000, 'checks': 50000}}
 
@@ -120,20 +120,26 @@ def logs_equal(got, exp):
 # generic timed FSM:  idle --arm--> armed --(d) tick [cond]--> cool --(dc) Goto--> idle
 #                     disarm: armed|cool -> idle ; poke: no transition anywhere (rejected)
 
-def make_fsm_class(d0):
+def make_fsm_class(d0, reject_by_rule=False):
     class TF(edzed.FSM):
         STATES = ['idle']
         # 'hop' is a timed state (7 s) whose entry action leaves it at once (chained transition): it is an
         # intermediate state, no timer may be armed for it
         TIMERS = {'armed': (d0, 'tick'), 'cool': (2.0, Goto('idle')), 'hop': (7.0, Goto('cool'))}
-        EVENTS = [('arm', None, 'armed'), ('tick', ['armed'], 'cool'),
+        # reject_by_rule: the timed event of 'armed' is refused by the transition table itself (target None)
+        EVENTS = [('arm', None, 'armed'), ('tick', ['armed'], None if reject_by_rule else 'cool'),
                   ('disarm', ['armed', 'cool'], 'idle'), ('poke', None, None),
                   ('hop-idle', None, 'hop'), ('hop-armed', None, 'hop'), ('land-armed', ['hop'], 'armed')]
 
         def enter_hop(self):
             data = edzed.fsm_event_data.get()
             if data.get('to') == 'armed':
-                self.event('land-armed')
+                # the chained event may carry its own 'duration' item; the one of the outer event does not apply
+                cd = data.get('chain_duration', UNDEF)
+                if cd is UNDEF:
+                    self.event('land-armed')
+                else:
+                    self.event('land-armed', duration=cd)
             else:
                 self.event(Goto('idle'))
     return TF
@@ -151,6 +157,7 @@ class FsmRef:
         self.log = []          # (time, 'enter'|'exit', state)
         self.error = False
         self.stopped = False
+        self.reject_by_rule = False
 
     def eff(self, state, d2):
         if state == 'cool':
@@ -177,7 +184,9 @@ class FsmRef:
                     break
                 if d <= 0:                   # immediately: chained, the state stays invisible
                     if state == 'armed':
-                        if self.accept:
+                        # conditions are consulted only on an initialised FSM: a zero-length initial state
+                        # is left without asking cond_tick (docs/FSM.rst)
+                        if self.accept or (first and not self.reject_by_rule):
                             state, d2 = 'cool', None
                             continue
                         break                # rejected: stays armed, visible, no timer
@@ -203,9 +212,9 @@ class FsmRef:
             self._enter(now, 'armed', d2)
             return True
         if etype == 'hop-armed':
-            # via the intermediate timed state 'hop' (invisible, no timer); the chained event carries no
-            # 'duration' item, so the duration of 'armed' comes from t_armed / the class default
-            self._enter(now, 'armed', None)
+            # via the intermediate timed state 'hop' (invisible, no timer); the 'duration' item of the OUTER event
+            # does not apply to 'armed': only the item of the chained event (d2 here) does, else t_armed / default
+            self._enter(now, 'armed', d2)
             return True
         if etype in ('goto-idle', 'hop-idle'):
             self._enter(now, 'idle')
@@ -218,12 +227,12 @@ class FsmRef:
         return False       # poke
 
 
-def scen_fsm(env, k0, k1, k2, nev, ev0=None, presched=False):
+def scen_fsm(env, k0, k1, k2, nev, ev0=None, presched=False, reject='cond', init_state='idle'):
     d0v, d0 = dur_value(env, k0 if k0 != 'absent' else 'none', 'd0')
     d1v, d1 = dur_value(env, k1, 'd1')
-    accept = env.bool('accept_tick')
+    accept = env.bool('accept_tick') if reject == 'cond' else False
     circ = fresh_circuit()
-    TF = make_fsm_class(d0v)
+    TF = make_fsm_class(d0v, reject_by_rule=(reject == 'rule'))
     loopref = []
     plog = []
     clock = lambda: loopref[0].time()
@@ -234,8 +243,15 @@ def scen_fsm(env, k0, k1, k2, nev, ev0=None, presched=False):
     for st in ('idle', 'armed', 'cool', 'hop'):
         kw[f'on_enter_{st}'] = edzed.Event(probe, 'enter')
         kw[f'on_exit_{st}'] = edzed.Event(probe, 'exit')
+    if init_state != 'idle':
+        kw['initdef'] = init_state
+    # sibling instances of the same class with their own t_armed (created before and after): instance settings
+    # must not leak into the class or into each other; the siblings stay in 'idle' and never own a timer
+    TF('sibling1', t_armed=77.0)
     fsm = TF('fsm', cond_tick=lambda: accept, **kw)
+    TF('sibling2', t_armed=0.0)
     ref = FsmRef(clamp(d0), k1 != 'absent', clamp(d1), accept)
+    ref.reject_by_rule = (reject == 'rule')
     gaps = [env.real(f'gap{i}', 0, 60) for i in range(nev)]
     t_stop_gap = env.real('stop_gap', 0, 60)
     horizon = 200.0
@@ -266,8 +282,33 @@ def scen_fsm(env, k0, k1, k2, nev, ev0=None, presched=False):
         loop = asyncio.get_running_loop()
         loopref.append(loop)
         simtask = asyncio.create_task(circ.run_forever())
-        await circ.wait_init()
-        ref._enter(loop.time(), 'idle', first=True)
+        t0 = loop.time()
+        ref._enter(t0, init_state, first=True)
+        if init_state != 'idle':
+            env.note('initial-timed-state')
+        try:
+            await circ.wait_init()
+            started = True
+        except edzed.EdzedInvalidState:
+            started = False
+        if ref.error or not started:
+            # an initial timed state without any duration: the start must fail (and only then)
+            env.note('no-duration')
+            env.check('no-duration-error', ref.error and not started and isinstance(circ.error, edzed.EdzedCircuitError),
+                      info=lambda: (ref.error, started, circ.error))
+            try:
+                await simtask
+            except BaseException:
+                pass
+            env.check('no-timer-after-stop', not timers())
+            return
+
+        def check_get_state():
+            gs = fsm.get_state()
+            env.check('get-state-timer', (gs[1] is None) == (ref.expiry is None) and gs[0] == ref.state,
+                      info=lambda: (gs, ref.state, ref.expiry))
+        check_get_state()
+
         def step(i):
             now = loop.time()
             sync_ref(now, lambda: len(probe.log))
@@ -279,6 +320,13 @@ def scen_fsm(env, k0, k1, k2, nev, ev0=None, presched=False):
             if et in ('arm', 'goto-armed') and k2 != 'absent':
                 d2v, d2 = dur_value(env, k2, f'd2_{i}')
                 data['duration'] = d2v
+            if et == 'hop-armed' and k2 != 'absent':
+                # outer 'duration' (must be ignored for 'armed') + optionally a 'duration' on the chained event
+                data['duration'] = 0.25
+                if env.choose(2, f'chain_duration_{i}'):
+                    d2v, d2 = dur_value(env, k2, f'd2_{i}')
+                    data['chain_duration'] = d2v
+                    env.note('chained-event-with-duration')
             exp_ret = ref.event(now, et, clamp(d2))
             real_et = {'goto-idle': Goto('idle'), 'goto-armed': Goto('armed')}.get(et, et)
             if et in ('hop-idle', 'hop-armed'):
@@ -296,6 +344,7 @@ def scen_fsm(env, k0, k1, k2, nev, ev0=None, presched=False):
             env.check('fsm-state', fsm.state == ref.state, info=lambda: (et, fsm.state, ref.state))
             tm = timers()
             env.check('one-timer', len(tm) == (1 if ref.expiry is not None else 0), info=lambda: (tm, ref.expiry))
+            check_get_state()
             if ref.expiry is None and ref.state == 'armed':
                 env.note('armed-without-timer')
             if d2 is not None and not isinstance(d2, str) and d2 != 'inf':
@@ -315,6 +364,8 @@ def scen_fsm(env, k0, k1, k2, nev, ev0=None, presched=False):
             if ref.state == 'armed' and ref.expiry is None and not accept:
                 env.note('timed-event-rejected')
                 env.check('rejected-no-timer', fsm.state == 'armed' and not timers())
+                env.note('rejected-by-the-table' if reject == 'rule' else 'rejected-by-cond')
+            check_get_state()
             env.check('fsm-state', fsm.state == ref.state, info=lambda: (fsm.state, ref.state))
             env.check('fsm-output', fsm.output == ref.state)
             n_before = len(probe.log)
@@ -380,7 +431,7 @@ class TimerRef:
         return True
 
 
-def scen_timer(env, mode, restartable, nev, presched=False):
+def scen_timer(env, mode, restartable, nev, presched=False, ev0=None):
     circ = fresh_circuit()
     loopref = []
     probe = Probe('probe', clock=lambda: loopref[0].time())
@@ -417,7 +468,9 @@ def scen_timer(env, mode, restartable, nev, presched=False):
                 env.note('event-after-expiry')
             elif ref.expiry == now:
                 env.note('tie-event-expiry')
-                if tm.state == ref.state:      # the expiry always toggles the state: not fired yet
+                # not fired yet <=> the handle armed for this expiry is still live (the state alone does not tell:
+                # with a zero-length next state the machine is back in the same state after the expiry)
+                if [h for h in timers() if bool(eq_(h.when(), ref.expiry))]:
                     env.note('tie-event-first')
                     break
             else:
@@ -437,12 +490,24 @@ def scen_timer(env, mode, restartable, nev, presched=False):
         def step(i):
             now = loop.time()
             sync_ref(now)
-            et = env.pick(['start', 'stop', 'toggle'], f'ev{i}')
+            et = ev0 if (i == 0 and ev0) else env.pick(['start', 'stop', 'toggle'], f'ev{i}')
             data = {}
             d2 = None
             if env.choose(2, f'with_duration{i}'):
-                d2 = env.real(f'd2_{i}', 0, 50, lo_open=True)
-                data['duration'] = d2
+                if mode == 'bistable' and env.choose(2, f'duration_kind{i}'):
+                    # zero / negative (the state is left at once, invisible) or INF_TIME (never)
+                    if env.choose(2, f'duration_inf{i}'):
+                        d2 = 'inf'
+                        data['duration'] = INF_TIME
+                        env.note('inf-duration')
+                    else:
+                        d2v = env.real(f'd2_{i}', -5, 0)
+                        d2 = 0.0
+                        data['duration'] = d2v
+                        env.note('zero-duration')
+                else:
+                    d2 = env.real(f'd2_{i}', 0, 50, lo_open=True)
+                    data['duration'] = d2
             exp_ret = ref.event(now, et, d2)
             ret = tm.event(et, **data)
             env.check('timer-ret', ret is exp_ret, info=lambda: (et, ret, exp_ret))
@@ -456,7 +521,18 @@ def scen_timer(env, mode, restartable, nev, presched=False):
             for g in gaps:
                 env.assume(g <= 3 * ((t_on if t_on is not None else 0) + (t_off if t_off is not None else 0)) / 2)
         await drive(loop, gaps, step, presched)
+        # the stop comes a symbolic while after the last event: the expiry armed by that event is observed too
+        g_stop = env.real('stop_gap', 0, 60)
+        if mode in ('astable', 'period'):
+            env.assume(g_stop <= 3 * ((t_on if t_on is not None else 0) + (t_off if t_off is not None else 0)) / 2)
+        await asyncio.sleep(g_stop)
         sync_ref(loop.time())          # an expiry due at this very instant has run before this task resumed
+        if ref.expiry is not None:
+            env.note('stop-before-expiry')
+        env.check('timer-state', tm.state == ref.state and tm.output == (ref.state == 'on'),
+                  info=lambda: ('before stop', tm.state, ref.state))
+        gs = tm.get_state()
+        env.check('get-state-timer', (gs[1] is None) == (ref.expiry is None), info=lambda: (gs, ref.expiry))
         await circ.shutdown()
         env.check('no-timer-after-stop', not timers())
         n0 = len(probe.log)
@@ -476,12 +552,15 @@ def scen_timer(env, mode, restartable, nev, presched=False):
 # ------------------------------------------------------------------------------------------
 # InputExp
 
-def scen_inputexp(env, kdef, kev, nev, presched=False):
+def scen_inputexp(env, kdef, kev, nev, presched=False, with_init=False):
     circ = fresh_circuit()
     loopref = []
     probe = Probe('probe', clock=lambda: loopref[0].time())
     dv, d = dur_value(env, kdef if kdef != 'absent' else 'none', 'duration')
-    ie = edzed.InputExp('ie', duration=dv, expired='EXPIRED', on_output=edzed.Event(probe, 'out'))
+    init_given = bool(with_init)
+    ALLOWED = ['EXPIRED', ('v', 'init')] + [('v', i) for i in range(nev)]
+    ikw = {'initdef': ('v', 'init')} if init_given else {}
+    ie = edzed.InputExp('ie', duration=dv, expired='EXPIRED', allowed=ALLOWED, on_output=edzed.Event(probe, 'out'), **ikw)
     d = clamp(d)
     gaps = [env.real(f'gap{i}', 0, 60) for i in range(nev)]
     ref = {'value': 'EXPIRED', 'expiry': None, 'log': [], 'error': False}
@@ -514,12 +593,49 @@ def scen_inputexp(env, kdef, kev, nev, presched=False):
         loop = asyncio.get_running_loop()
         loopref.append(loop)
         simtask = asyncio.create_task(circ.run_forever())
-        await circ.wait_init()
-        out(loop.time(), 'EXPIRED')
+        try:
+            await circ.wait_init()
+            started = True
+        except edzed.EdzedInvalidState:
+            started = False
+        if init_given:
+            # the block starts in the timed state 'valid' with the default duration
+            env.note('initial-timed-state')
+            if d is None:
+                env.note('no-duration')
+                env.check('no-duration-error', not started and isinstance(circ.error, edzed.EdzedCircuitError))
+                try:
+                    await simtask
+                except BaseException:
+                    pass
+                env.check('no-timer-after-stop', not timers())
+                return
+            if d == 'inf':
+                out(loop.time(), ('v', 'init'))
+            elif d <= 0:
+                out(loop.time(), 'EXPIRED')
+            else:
+                out(loop.time(), ('v', 'init'))
+                ref['expiry'] = loop.time() + d
+        else:
+            out(loop.time(), 'EXPIRED')
+        env.check('iexp-started', started, info=lambda: circ.error)
+        env.check('iexp-output', ie.output == ref['value'], info=lambda: (ie.output, ref['value']))
+        env.check('one-timer', len(timers()) == (1 if ref['expiry'] is not None else 0))
         vals = []
         def step(i):
             now = loop.time()
             sync_ref(now)
+            if env.choose(2, f'bad_value{i}'):
+                # a put refused by the validators: the value AND the pending timer stay as they are
+                env.note('put-refused')
+                before = (ie.output, ie.state, [h.when() for h in timers()])
+                r = ie.event('put', value='NOT-ALLOWED', duration=1.0)
+                env.check('iexp-refused', r is False and (ie.output, ie.state) == before[:2]
+                          and len(timers()) == len(before[2]) and all(eq_(h.when(), w) is True or bool(eq_(h.when(), w))
+                                                                      for h, w in zip(timers(), before[2])),
+                          info=lambda: (r, before, ie.output, ie.state))
+                return None
             v = ('v', i)
             data = {'value': v}
             d2 = None
@@ -577,6 +693,71 @@ def scen_inputexp(env, kdef, kev, nev, presched=False):
     vloop.run(main())
 
 
+def scen_selfloop(env, presched=False):
+    """a timed state whose timed event re-enters the same state: one expiry per period, exactly one timer pending
+    at any time; an external event re-entering the state restarts the period; stop at a symbolic instant"""
+    circ = fresh_circuit()
+    loopref = []
+    probe = Probe('probe', clock=lambda: loopref[0].time())
+    d = env.real('period', 1, 50)
+
+    class Loop(edzed.FSM):
+        STATES = ['s']
+        TIMERS = {'s': (None, 'tick')}
+        EVENTS = [('tick', None, 's'), ('again', None, 's')]
+    fsm = Loop('fsm', t_s=d, on_enter_s=edzed.Event(probe, 'enter'), on_exit_s=edzed.Event(probe, 'exit'))
+    g1 = env.real('gap_again', 0, 120)
+    g2 = env.real('gap_stop', 0, 120)
+    env.assume(g1 <= 3 * d)
+    env.assume(g2 <= 3 * d)
+    exp = []
+
+    def timers():
+        return live_block_timers(loopref[0], circ)
+
+    async def main():
+        loop = asyncio.get_running_loop()
+        loopref.append(loop)
+        asyncio.create_task(circ.run_forever())
+        await circ.wait_init()
+        t0 = loop.time()
+        exp.append((t0, 'enter'))
+        state = {'next': t0 + d}
+
+        def advance(now):
+            n = 0
+            while bool(state['next'] < now) or (bool(state['next'] == now) and len(probe.log) > len(exp)):
+                exp.append((state['next'], 'exit'))
+                exp.append((state['next'], 'enter'))
+                state['next'] = state['next'] + d
+                n += 1
+                if n > 4:
+                    raise AssertionError('bound')
+            if bool(state['next'] == now):
+                env.note('tie-event-first')
+
+        def step(i):
+            now = loop.time()
+            advance(now)
+            r = fsm.event('again')
+            exp.append((now, 'exit'))
+            exp.append((now, 'enter'))
+            state['next'] = now + d
+            env.check('one-timer', len(timers()) == 1, info=timers)
+        await drive(loop, [g1], step, presched)
+        await asyncio.sleep(g2)
+        advance(loop.time())
+        env.check('one-timer', len(timers()) == 1, info=timers)
+        await circ.shutdown()
+        env.check('no-timer-after-stop', not timers())
+        n0 = len(probe.log)
+        await asyncio.sleep(500.0)
+        env.check('nothing-after-stop', len(probe.log) == n0)
+        got = [(t, et) for t, et, _ in probe.log]
+        env.check('selfloop-log', logs_equal([(t, e) for t, e in got], exp), info=lambda: (got, exp))
+    vloop.run(main())
+
+
 def shards(tier):
     nev = BOUNDS[tier]['external_events']
     out = []
@@ -611,16 +792,33 @@ def shards(tier):
                                     'scenario': 'scen_fsm',
                                     'params': {'k0': k0, 'k1': k1, 'k2': k2, 'nev': n, 'ev0': ev0, 'presched': True},
                                     'cost': 3 ** ks.count('sym')})
+    # the timed event refused by the transition table (target None) instead of a condition
+    for ks in (('sym', 'absent', 'absent'), ('none', 'sym', 'absent'), ('none', 'none', 'sym')):
+        for ps in (False, True):
+            out.append({'name': f'fsm d0={ks[0]} t_armed={ks[1]} duration={ks[2]} tick refused by the table' + (' presched' if ps else ''),
+                        'scenario': 'scen_fsm',
+                        'params': {'k0': ks[0], 'k1': ks[1], 'k2': ks[2], 'nev': 2, 'ev0': 'arm', 'presched': ps, 'reject': 'rule'},
+                        'cost': 3})
+    # the FSM starts in the timed state (initdef='armed'): duration from t_armed / the class default, none = error
+    for k0 in ('none', 'sym', 'inf', 'str'):
+        for k1 in DKINDS:
+            if tier == 'quick' and 'str' in (k0, k1) and (k0, k1) != ('str', 'absent'):
+                continue
+            out.append({'name': f'fsm d0={k0} t_armed={k1} initial state armed', 'scenario': 'scen_fsm',
+                        'params': {'k0': k0, 'k1': k1, 'k2': 'absent', 'nev': 1, 'ev0': None, 'init_state': 'armed'},
+                        'cost': 3})
     for mode in ('bistable', 'mono', 'mono-off', 'astable', 'period'):
         for restartable in (True, False):
             n = nev if mode in ('bistable', 'mono', 'mono-off') else max(1, nev - 1)
             for ps in (False, True):
                 if ps and mode == 'bistable':
                     continue
-                out.append({'name': f'timer {mode} restartable={restartable} n={n}' + (' presched' if ps else ''),
-                            'scenario': 'scen_timer',
-                            'params': {'mode': mode, 'restartable': restartable, 'nev': n, 'presched': ps},
-                            'cost': 10 if mode in ('astable', 'period') else 3})
+                for e0 in (['start', 'stop', 'toggle'] if mode in ('mono', 'mono-off') and n > 1 else [None]):
+                    out.append({'name': f'timer {mode} restartable={restartable} n={n}' + (' presched' if ps else '')
+                                        + (f' ev0={e0}' if e0 else ''),
+                                'scenario': 'scen_timer',
+                                'params': {'mode': mode, 'restartable': restartable, 'nev': n, 'presched': ps, 'ev0': e0},
+                                'cost': 10})
     for kdef in ('none', 'sym', 'inf', 'str'):
         for kev in DKINDS:
             for ps in (False, True):
@@ -628,4 +826,12 @@ def shards(tier):
                     continue
                 out.append({'name': f'inputexp duration={kdef} per-event={kev} n={nev}' + (' presched' if ps else ''),
                             'scenario': 'scen_inputexp', 'params': {'kdef': kdef, 'kev': kev, 'nev': nev, 'presched': ps}})
+        for ps in (False, True):
+            if ps and kdef != 'sym':
+                continue
+            out.append({'name': f'inputexp duration={kdef} with initdef' + (' presched' if ps else ''),
+                        'scenario': 'scen_inputexp',
+                        'params': {'kdef': kdef, 'kev': 'absent', 'nev': 1, 'presched': ps, 'with_init': True}})
+    for ps in (False, True):
+        out.append({'name': 'self-loop timed state' + (' presched' if ps else ''), 'scenario': 'scen_selfloop', 'params': {'presched': ps}})
     return out
